@@ -152,33 +152,12 @@ class Journaler:
         )
         self.conn.commit()
 
-    def purge_msgs(
-        self,
-        session: FIXSession,
-        direction: MessageDirection,
-        start_seq_no: int,
-        end_seq_no: int,
-    ):
-        """Deletes journaled messages with seq no in range (session seq nums untouched).
-
-        Args:
-            session: target session
-            direction: message direction
-            start_seq_no: seq no from
-            end_seq_no: seq no to (inclusive)
-        """
-        self.cursor.execute(
-            "DELETE FROM message WHERE session = ? AND direction = ? AND seqNo >= ?"
-            " AND seqNo <= ?",
-            (session.key, direction.value, start_seq_no, end_seq_no),
-        )
-        self.conn.commit()
-
     def persist_msg(
         self,
         msg: bytes,
         session: FIXSession,
         direction: MessageDirection,
+        replace: bool = False,
     ):
         """Commits encoded fix message into DB.
 
@@ -186,6 +165,9 @@ class Journaler:
             msg: encoded fix message
             session: target session
             direction: message direction
+            replace: message is a retransmission / gap fill under a MsgSeqNum already
+                used, it atomically replaces the journaled one (session seq nums
+                are left untouched)
 
         Raises:
             DuplicateSeqNoError: (critical) when DB already have such message seq_no
@@ -193,6 +175,14 @@ class Journaler:
         assert isinstance(msg, bytes), "expected encoded message"
         seq_no = self.find_seq_no(msg)
         try:
+            if replace:
+                self.cursor.execute(
+                    "INSERT OR REPLACE INTO message VALUES(?, ?, ?, ?)",
+                    (seq_no, session.key, direction.value, msg),
+                )
+                self.conn.commit()
+                return
+
             self.cursor.execute(
                 "INSERT INTO message VALUES(?, ?, ?, ?)",
                 (seq_no, session.key, direction.value, msg),
